@@ -75,6 +75,9 @@ func runPoints(w *world, hist []Pt, from int, log *[]rt.M, snapshot func(phase s
 		if nl[r.Topic] > lens[r.Topic] {
 			f["src"] = "collect"
 		}
+		if r.Op == "none" {
+			f["src"] = "none"
+		}
 		lens = nl
 		*log = append(*log, ev("Tx", f))
 		if snapshot != nil {
@@ -83,7 +86,7 @@ func runPoints(w *world, hist []Pt, from int, log *[]rt.M, snapshot func(phase s
 	}
 	for k := from; k < len(hist); k++ {
 		cur = k
-		*log = append(*log, ev("Point", rt.M{"k": k, "id": hist[k].ID, "lvl": hist[k].Lvl}))
+		*log = append(*log, ev("Point", rt.M{"k": k, "id": hist[k].ID, "lvl": hist[k].Lvl, "t": timeIndex(w.cfg.Zig, k)}))
 		w.feed(k, hist[k])
 		told := w.told()
 		lens = toldLens(told)
